@@ -405,15 +405,41 @@ def _twin(ctx, rep, model_ok):
         shutil.rmtree(base, ignore_errors=True)
 
 
+def _listing_pages(ctx, rep):
+    """0..9 objects in one directory (the in-memory S3 pages at 2 keys, also for a bare list_objects_v2): every listing complete"""
+    from datashard.storage_backend import LocalStorageBackend
+    base = scratch_dir("c20l-")
+    try:
+        for prefix in ("tbl", "a/b"):
+            loc = LocalStorageBackend(os.path.join(base, prefix.replace("/", "_")))
+            fake = fakes3.FakeS3()
+            s3 = fakes3.make_backend(prefix, True, fake)
+            for n in range(10):
+                for d in ("data", "metadata", "metadata/manifests", ""):
+                    a, b = _canon(lambda: sorted(loc.list_files(d))), _canon(lambda: sorted(s3.list_files(d)))
+                    rep.evaluations += 1
+                    if n >= 3:
+                        rep.nontrivial(["listing-pages", prefix, n, d])
+                    if a != b:
+                        rep.violate("C20:listing-differs", f"{n} objects under {prefix!r}: list_files({d!r}) local {str(a)[:120]} vs S3 {str(b)[:120]}",
+                                    {"kind": "listing-pages", "prefix": prefix, "objects": n, "dir": d})
+                k = ["data/f%d.parquet", "metadata/v%d.metadata.json", "metadata/manifests/m%d.avro"][n % 3] % n
+                loc.write_file(k, b"x")
+                s3.write_file(k, b"x")
+    finally:
+        shutil.rmtree(base, ignore_errors=True)
+
+
 def run(ctx, model_ok):
     rep = Report()
     rep.rule = ("range reader: all seek/read programs of length ≤3 (thorough ≤4) over a 19-op alphabet × object sizes {0,1,2,5} "
                 "(quick: every 5th length-3 program + all length-2), plus random buffered programs incl. sizes 2^20±1; retry: all attempt "
                 "sequences up to max+2 over {transient, permanent, non-retryable, success} for max_retries ∈ {0,1,2,5}, and fault plans through "
-                "9 real backend methods; twin backends: random operation sequences over 9 keys / 6 directories / 3 prefixes. "
+                "9 real backend methods; listings of 0..9 objects with the store paging at 2 keys; twin backends: random operation sequences over 9 keys / 6 directories / 3 prefixes. "
                 "non-trivial = delivers bytes / distinct attempt sequence / ≥3 objects present.")
     _check_range(ctx, rep, model_ok)
     _check_retry(ctx, rep, model_ok)
     _check_backend_faults(ctx, rep)
+    _listing_pages(ctx, rep)
     _twin(ctx, rep, model_ok)
     return rep
